@@ -43,6 +43,10 @@ def contracts():
     cs += common.shared(C08, ['core.arg_val', 'core._ArgValuator.mode'])
     cs += common.shared(X_ctor, ['core._ArgValuator.__init__'])
     cs += common.shared(extra, ['core.TType.__stars__'])
+    # the destination: the text is split into segments by Path.from_text and walked by _t_eval (wildcard expansion included)
+    from contracts import C02
+    cs += common.shared(C02, ['core._t_eval'])
+    cs += common.shared(extra, ['core.Path.from_text'])
     return cs
 
 
@@ -66,6 +70,8 @@ NATIVE = {
     'mutation.Assign.glomit': _n.differ('mutation.Assign.glomit', 'ref_mut.assign_ref', _assign_cases, mode='method'),
     'mutation._apply_for_each': C12.NATIVE['mutation._apply_for_each'],
 }
+from contracts import extra as _extra
+BOUNDED = [_extra.bounded_from_text]
 ASSUMPTIONS = [
     'G-contract for fetching the parent / evaluating the nested Assign; opaque user primitives obj[k] = v / setattr / registered assign handler / missing()',
     'atomicity: on every path the stores into pre-existing objects are the _assign_op calls made through _apply_for_each; for a wildcard-free path that is one store, '
